@@ -17,7 +17,7 @@ from .. import evidence, tlc
 from ..common import MachineryError, Timer, guarded, log, pmap, seed, workdir
 from ..edits import Doc, payload_for
 from ..findings import Reporter
-from ..langs import analyse, corpus_files
+from ..langs import analyse, corpus_files, harvested_texts
 from ..render import TRAITS, applicable, render
 from ..tlaval import dump_chunks, parse, parse_state, read_dump
 
@@ -170,6 +170,10 @@ def run(tier: str) -> int:
         if b["every_boundary"]:
             single = [[{"k": k, "at": 1, "style": 1}] for k in ("blank", "comment")]
             # every safe boundary once: bind point 1 to each boundary in turn (handled in worker through npoints=all)
+    harvested = harvested_texts()
+    for lang, origin, text in harvested:
+        sel = rng.sample(scripts, min(b["scripts_per_corpus"], len(scripts)))
+        jobs.append((lang, text, sel, b["points"], origin, rng.randrange(1 << 30)))
     res = pmap(run_text, jobs, timeout=900, chunk=1)
     events, skipped_unstable, skipped_base, unbound = [], 0, [], 0
     for job, r in zip(jobs, res):
@@ -189,14 +193,14 @@ def run(tier: str) -> int:
         ev = events[k]
         rep.fail({"clause": clause, "language": ev["lang"], "origin": ev["origin"], "script": [[e["k"], e["at"]] for e in ev["script"]]},
                  {"language": ev["lang"], "origin": ev["origin"], "script": ev["_concrete"], "base": ev["base"], "got": ev["got"], "text": ev["_text"], "edited": ev["_new"]})
-    log(f"[C04] A accepted {len(events) - len(rejected)}/{len(events)} edited scans ({len(canon)} canonical texts, {len(corpus)} corpus files; skipped: {skipped_unstable} lexer-unstable, {unbound} unbound, {len(skipped_base)} base failures), {t.s()}s")
+    log(f"[C04] A accepted {len(events) - len(rejected)}/{len(events)} edited scans ({len(canon)} canonical texts, {len(corpus)} corpus files, {len(harvested)} texts of the repository's own tests; skipped: {skipped_unstable} lexer-unstable, {unbound} unbound, {len(skipped_base)} base failures), {t.s()}s")
     rc = rep.finish()
     evidence.write(
         PROP, tier, level="model_checking", wall_s=t.s(), violations=rep.n_violations,
         coverage={
             "states": m.distinct + pm.distinct, "transitions": m.transitions + pm.transitions, "traces_validated_against_impl": len(events), "exhaustive": False,
             "samples": [{"language": e["lang"], "origin": e["origin"], "script": e["script"], "functions": len(e["base"])} for e in events[:: max(1, len(events) // 3)][:3]] or [{"note": "no event"}],
-            "bounds": {"points": b["points"], "styles": b["styles"], "max_simultaneous_edits": b["edits"], "scripts_enumerated": len(scripts), "canonical_texts": len(canon), "corpus_files": len(corpus),
+            "bounds": {"points": b["points"], "styles": b["styles"], "max_simultaneous_edits": b["edits"], "scripts_enumerated": len(scripts), "canonical_texts": len(canon), "corpus_files": len(corpus), "texts_harvested_from_repository_tests": len(harvested),
                        "scripts_per_canonical_text": b["scripts_per_program"], "scripts_per_corpus_file": b["scripts_per_corpus"], "every_safe_boundary_once": b["every_boundary"]},
             "skipped": {"lexer_unstable_edits": skipped_unstable, "unbound_points": unbound, "base_analysis_failed": skipped_base},
             "model": {"module": "Edits.tla", "invariants": ["ShiftPreservesOrderAndNesting", "ShiftGrowsSpansOnlyByInsertedLines"], "actions": m.coverage},
